@@ -115,6 +115,20 @@ def job_solver(job):
             for key in ("rewards", "players", "transition_list", "final_states"):
                 desc[key][:] = new[key]
             continue
+        if op["op"] == "batch":
+            # the batch runner on a dictionary that holds this description (the caller's own object):
+            # observed only through the snapshots around it
+            import conditionalrewards as _cr
+            saved = getattr(tad, "VERIF_SINK", None)
+            tad.VERIF_SINK = None               # (the inner observation points belong to solve() calls)
+            try:
+                _cr.run_games({"g": desc})
+            except Exception:
+                pass
+            finally:
+                tad.VERIF_SINK = saved
+            desc.pop("prune_states", None)      # run_games leaves its flag in the dictionary it was given
+            continue
         if op["op"] == "snap":
             emit({"e": "Snap", "d": op["d"], "snap": digest(games.snapshot(desc))})
             continue
